@@ -6,5 +6,13 @@ class Plugin(HistPlugin):
     id = 'C06'
     extra_import = 'HistProps HistPropCheck'
     check_fn = 'c06_check'
-    FINDING_BITS = 1 | 2 | 8
-    UNDECIDED_BITS = 4
+    weights = {'insert_one': 8, 'insert_many': 2, 'update': 6, 'replace': 3, 'delete': 1, 'fam': 2,
+               'bulk': 2, 'create_index': 6, 'drop_index': 1, 'drop_indexes': 1, 'index_info': 1}
+    gen_kw = {}
+    rule = ('histories mixing unique index creation (single-field, nested-field and compound keys; plain, '
+            'sparse, partial; before and after the data) with every write path over a small value domain, '
+            'so that duplicates are frequent; the unique-index invariant (HistProps.inv_unique) is '
+            'evaluated on every observed state. Non-trivial = a unique index exists while at least two '
+            'documents are stored; distinct by canonical JSON.')
+    FINDING_BITS = 1 | 2 | 8 | 16 | 64
+    UNDECIDED_BITS = 4 | 32 | 128 | 256
